@@ -71,7 +71,7 @@ func genC13(seed uint64, tier string) *Plan {
 		w  int
 	}{{"identify", 3}, {"open", 8}, {"sub", 8}, {"unsub", 2}, {"graft", 8}, {"prune", 3}, {"pub", 6}, {"fwd", 2}, {"resend", 2}, {"ihave", 3},
 		{"iwant", 2}, {"idontwant", 2}, {"reset-out", 3}, {"close-out", 2}, {"reset-in", 4}, {"close-in", 2}, {"disconnect", 2}, {"reconnect", 3},
-		{"adv", 10}, {"advlong", 2}, {"release", 5}, {"reset-storm", 2}, {"node-sub", 2}, {"node-cancel", 1}, {"node-pub", 2}, {"stall", 1}, {"score", 3}, {"blacklist", 0}, {"open2", 1}, {"direct-add", 1}, {"direct-rm", 1}, {"extensions", 2}}
+		{"adv", 10}, {"advlong", 2}, {"release", 5}, {"reset-storm", 2}, {"node-sub", 2}, {"node-cancel", 1}, {"node-pub", 2}, {"stall", 1}, {"score", 3}, {"blacklist", 1}, {"open2", 1}, {"direct-add", 1}, {"direct-rm", 1}, {"extensions", 2}}
 	tot := 0
 	for _, o := range ops {
 		tot += o.w
